@@ -52,7 +52,7 @@ ListedOnce(g, a) == g \notin DOMAIN member \/ a \notin member[g]
 
 (* ---- judgments about the whole relations ---- *)
 MissingInverse(f, finv) == {k \in DOMAIN f : f[k] \notin DOMAIN finv}
-SetsWithoutMembers == {n \in DOMAIN pset : pset[n] \notin DOMAIN member}
+SetsWithoutMembers == {n \in DOMAIN pset : pset[n] \notin DOMAIN member}   \* not a law: MS-ADTS has property sets without attributes (Phone and Mail Options, MS-TS-GatewayAccess)
 
 (* ---- transitions ---- *)
 Row(t, k, v) ==
